@@ -170,6 +170,13 @@ def oracle(ctx, hints, effort):
                 sc[k] = [sc[k][0]] * len(sc["thickness"])
             sc["micro"] = {k: ([v[0]] * len(sc["thickness"]) if isinstance(v, list) else v) for k, v in sc.get("micro", {}).items()}
             sc["thickness"] = [round(float(np.exp(rng.uniform(np.log(0.05), np.log(20.0)))), 3) for _ in sc["thickness"]]
+            # between identical media the interfaces may be transparent: the two documented ways of saying so (a flat surface over
+            # transparent internal interfaces; an explicit list), the air-snow boundary always being the first one
+            if (i // 4) % 2 == 0:
+                sc["surface"], sc["interface"] = "flat", "transparent"
+            else:
+                sc["interface"] = ["flat"] + ["transparent"] * (len(sc["thickness"]) - 1)
+            sc["assembly"] = 0
         todo.append(sc)
     # optically deep stacks of identical lossy layers (cumulated optical depth of a few units at the internal boundaries): exact
     for f, ths, cl in ((89e9, [1.0, 1.0, 1.0], 1.5e-4), (36.5e9, [10.7, 10.7], 1.2e-4)):
